@@ -46,6 +46,9 @@ func src(fset *token.FileSet, n ast.Node) string {
 	return strings.Join(strings.Fields(b.String()), " ")
 }
 
+// depth of function-literal nesting at a site: "/0" = in the function itself, "/1" = inside one closure, ...
+func depth(lits []*ast.FuncLit) string { return "/" + strconv.Itoa(len(lits)) }
+
 type inv struct{ items []string }
 
 func (i *inv) add(s string) { i.items = append(i.items, s) }
@@ -269,15 +272,15 @@ func main() {
 									}
 								}
 							case *ast.GoStmt:
-								goStmt.add(where + ": go")
+								goStmt.add(where + depth(lits) + ": go")
 							case *ast.SendStmt:
-								goStmt.add(where + ": send " + src(fset, v.Chan))
+								goStmt.add(where + depth(lits) + ": send " + src(fset, v.Chan))
 							case *ast.UnaryExpr:
 								if v.Op == token.ARROW {
-									goStmt.add(where + ": recv " + src(fset, v.X))
+									goStmt.add(where + depth(lits) + ": recv " + src(fset, v.X))
 								}
 							case *ast.SelectStmt:
-								goStmt.add(where + ": select")
+								goStmt.add(where + depth(lits) + ": select")
 							case *ast.CallExpr:
 								s := src(fset, v.Fun)
 								if fname == "Action.Invoke" {
@@ -289,11 +292,11 @@ func main() {
 								}
 								if id, ok := v.Fun.(*ast.Ident); ok && id.Name == "make" && len(v.Args) > 0 {
 									if _, ok := v.Args[0].(*ast.ChanType); ok {
-										goStmt.add(where + ": " + src(fset, v))
+										goStmt.add(where + depth(lits) + ": " + src(fset, v))
 									}
 								}
 								if s == "time.After" {
-									goStmt.add(where + ": time.After")
+									goStmt.add(where + depth(lits) + ": time.After")
 								}
 							}
 							return true
